@@ -307,10 +307,24 @@ func genResponse(r *rand.Rand, stamp string, status string, location string) str
 			b.WriteString("Date: today" + eol)
 		}
 	}
-	if location != "" {
+	/* a very long header line whose value reads like another header at the offsets where a
+	   reader with a fixed buffer would split it (a header line is one line, however long) */
+	longLine := false
+	if r.Intn(12) == 0 {
+		longLine = true
+		inner := pick(r, []string{"Content-Type: application/activity+json", "content-type:application/json", "Location: https://{H1}/{OP}/d0", "Location: /{OP}/d0", ""})
+		at := pick(r, []int{4096, 4096, 8192, 1024, 2048, 4095, 4097, 16384, 65536, 100 + r.Intn(9000)})
+		name := "X-Long: "
+		line := name + strings.Repeat("p", at-len(name)) + inner
+		if r.Intn(3) == 0 {
+			line += strings.Repeat("q", r.Intn(5000))
+		}
+		b.WriteString(line + eol)
+	}
+	if location != "" && !(longLine && r.Intn(2) == 0) {
 		b.WriteString(genHeaderName(r, "Location") + ":" + pick(r, []string{" ", "", "\t", "  "}) + location + pick(r, []string{"", " ", "\t"}) + eol)
 	}
-	if r.Intn(8) != 0 {
+	if r.Intn(8) != 0 && !(longLine && r.Intn(2) == 0) {
 		ct := "application/activity+json"
 		if r.Intn(3) == 0 {
 			ct = pick(r, contentTypes)
